@@ -102,9 +102,9 @@ func newPointerEncoder(encoder *encoding.EncodeAssembler[any, Value]) encoding.E
 				return nil, nil
 			}), nil
 		} else if typ.Kind() == reflect.Pointer {
-			enc, err := encoder.Compile(typ.Elem())
-			if err != nil {
-				return nil, err
+			var enc encoding.Encoder[any, Value] = encoder
+			if e, err := encoder.Compile(typ.Elem()); err == nil {
+				enc = e
 			}
 
 			return encoding.EncodeFunc(func(source any) (Value, error) {
